@@ -28,6 +28,10 @@ INITIAL, PUBLISHED, CLOSED = 0, 1, 2
 UNIT = 65536
 
 
+DEPENDS = {
+    "C04": "the topic's slots live in a ConcurrentVector that grows while consumers hold slot addresses",
+}
+
 def units(tier):
     return [driver("topic.cc")]
 
